@@ -1,7 +1,8 @@
 /- Line-protocol driver for C05 (content-stream interpreter model and ISO text-model spec).
 
 One request per line:
-  c05 <model|spec> a b c d e f | font <namehex> <first> <missing> <descent> <w…|-> | …
+  c05 <model|spec> a b c d e f | font <namehex> <first> <missing> <descent> <kind> <w…|-> | …
+      kind = s | cidh | t3:a,b,c,d,e,f | cidv:<dvy>:<vx,vy;…|->
       | form <a b c d e f|nomatrix> ; <res> ; <tokens> | … | page <res> | stream <tokens|-> | stream …
   res    = inherit  |  res <hex=idx,…|-> <hex=idx,…|->          (fonts, xobjects)
   tokens = n<rat> s<hex|-> /<hex> [ … ] z b0 b1 o<hex>
@@ -102,12 +103,34 @@ def parseSection (r : Req) (sec : String) : Option Req :=
     match parseMatrix rest with
     | some m => some { r with mode := mode, ctm := m }
     | none => none
-  | "font" :: nm :: first :: mw :: desc :: ws =>
+  | "font" :: nm :: first :: mw :: desc :: kind :: ws =>
     match strOfHex nm, first.toNat?, ratOfString mw, ratOfString desc with
     | some nm, some first, some mw, some desc =>
       let ws := ws.filter (· != "-")
       match ws.mapM ratOfString with
-      | some widths => some { r with fonts := r.fonts.push ⟨nm, first, widths, mw, desc⟩ }
+      | some widths =>
+        let base : Font := ⟨nm, first, widths, mw, desc, 1 / 1000, 1 / 1000, false, false, [], 880⟩
+        if kind == "s" then some { r with fonts := r.fonts.push base }
+        else if kind == "cidh" then some { r with fonts := r.fonts.push { base with multibyte := true } }
+        else if kind.startsWith "t3:" then
+          match parseMatrix ((kind.drop 3).toString.splitOn ",") with
+          | some m =>
+            some { r with fonts := r.fonts.push { base with hscale := Gen.Interp.type3_hscale m,
+                                                            vscale := Gen.Interp.type3_vscale m } }
+          | none => none
+        else if kind.startsWith "cidv:" then
+          match (kind.drop 5).toString.splitOn ":" with
+          | [dvy, ds] =>
+            let pairs := if ds == "-" then some [] else (ds.splitOn ";").mapM (fun p =>
+              match (p.splitOn ",").mapM ratOfString with
+              | some [vx, vy] => some (vx, vy)
+              | _ => none)
+            match ratOfString dvy, pairs with
+            | some dvy, some pairs =>
+              some { r with fonts := r.fonts.push { base with multibyte := true, vertical := true, disps := pairs, dvy := dvy } }
+            | _, _ => none
+          | _ => none
+        else none
       | none => none
     | _, _, _, _ => none
   | "form" :: rest =>
